@@ -528,6 +528,10 @@ class T(_np.ndarray):
     __hash__ = None
     def __getitem__(s, idx):
         if isinstance(idx, _np.ndarray) and idx.dtype == object:
+            # added for C11/C12: x[mask] with a symbolic boolean mask of x's own shape gives an opaque
+            # selection whose only observable is its emptiness (`sym_len(sel) > 0`), see MaskSel
+            if idx.shape == s.shape and _np.asarray(idx).size > 0 and all(isinstance(m, B) for m in _np.asarray(idx).reshape(-1)):
+                return MaskSel(list(_np.asarray(idx).reshape(-1)))
             raise TraceError('indexing with a symbolic mask (data-dependent shape)')
         if isinstance(idx, tuple) and any(isinstance(i, _np.ndarray) and i.dtype == object for i in idx):
             raise TraceError('indexing with a symbolic mask (data-dependent shape)')
@@ -607,6 +611,45 @@ def _astype(s, dtype, *a, **k):
     if dtype is float or dtype in ('float', 'float32', 'float64', 'double') or getattr(dtype, '_float_dtype', False):
         return s
     raise TraceError('astype(%r) is not known to the tracing shim' % (dtype,))
+
+
+class MaskSel:
+    """added for C11/C12: the result of x[mask] for a symbolic boolean mask.  Its shape depends on data, so
+    nothing can be done with it except asking whether it is empty: `sym_len(sel) > 0` is the
+    disjunction of the mask entries (recipes pass `len = shim.sym_len`)."""
+    def __init__(s, mask): s.__dict__['mask'] = mask
+    def __len__(s): raise TraceError('len() of a symbolic mask selection (use shim.sym_len)')
+    def __getattr__(s, k): raise TraceError('symbolic mask selection has no %s (data-dependent shape)' % k)
+
+
+class _Count:
+    def __init__(s, mask): s.mask = mask
+    def _any(s):
+        r = s.mask[0]
+        for m in s.mask[1:]: r = r | m
+        return r
+    def __gt__(s, o):
+        if isinstance(o, int) and o == 0: return s._any()
+        raise TraceError('count of a symbolic mask compared with %r' % (o,))
+    def __eq__(s, o):
+        if isinstance(o, int) and o == 0: return ~s._any()
+        raise TraceError('count of a symbolic mask compared with %r' % (o,))
+    def __ne__(s, o):
+        if isinstance(o, int) and o == 0: return s._any()
+        raise TraceError('count of a symbolic mask compared with %r' % (o,))
+    __hash__ = None
+    def __bool__(s): raise TraceError('data-dependent control flow on a symbolic count')
+
+
+def sym_len(x):
+    return _Count(x.mask) if isinstance(x, MaskSel) else len(x)
+
+
+def _fill_value(v):
+    """added for C11/C12: a NaN fill value is the marker variable `NaN` (R has no NaN: definitions that use it
+    take it as an explicit argument); infinities stay outside the model"""
+    if isinstance(v, float) and v != v: return var('NaN')
+    return _lift(v)
 
 
 def _lift(x):
@@ -914,6 +957,8 @@ def make_torch():
     d['ones'] = lambda *n, **k: _full(_shape_args(n), const(1))
     d['zeros_like'] = lambda x, **k: _full(x.shape, const(0))
     d['ones_like'] = lambda x, **k: _full(x.shape, const(1))
+    d['full_like'] = lambda x, v, **k: _full(x.shape, _fill_value(v))       # added for C11/C12
+    d['full'] = lambda shape, v, **k: _full(shape, _fill_value(v))              # added for C11/C12
     d['eye'] = lambda n, **k: wrap(_np.eye(n, dtype=int))
     d['stack'] = _stack
     d['cat'] = _cat
